@@ -15,13 +15,24 @@ ASSUMPTIONS = COMMON_ASSUMPTIONS
 
 
 def run_one(seed, preset=None, tier="quick", want_case=False):
-    r = run_single(ID, seed, preset, want_case)
+    # swarm: per-run generator knobs (root fields served by the default resolver from initial_value,
+    # resolver-heavy or default-resolver-heavy schemas, deeper or wider documents)
+    def schema_knobs(t):
+        return {"root_default_impl": t.chance(30), "default_impl_pct": t.choose([30, 10, 60]), "max_objects": t.choose([5, 3, 6]),
+                "mutation_pct": 35}
+
+    def doc_knobs(t):
+        return {"max_depth": t.choose([4, 3, 5]), "max_sel": t.choose([5, 3, 6]), "frag_pct": t.choose([18, 30, 8]),
+                "var_pct": t.choose([25, 45, 10]), "skip_pct": t.choose([12, 25])}
+
+    r = run_single(ID, seed, preset, want_case, schema_knobs=schema_knobs, doc_knobs=doc_knobs)
     plan, case, out = r["_plan"], r["_case"], r["_out"]
     p = r["probes"]
     structural = any(p.get(k) for k in ("repeated_key", "merged_field_nodes", "fragments_after_use", "fragments_before_operations",
                                         "alias_equals_other_field_name", "var_in_fragment", "skip_on_spread")) or "..." in case.text or ":" in case.text
     shape = any(p.get(k) for k in ("list_len>=2", "type_levels_disagree", "typename_key", "typename_attr", "typename_class")) or bool(plan.abstract_levels)
     r["nontrivial"] = bool(not plan.refused and not plan.errors and len(out.rt.calls) >= 3 and structural and shape and not r["viol"])
+    r["probes"]["root_served_by_default_resolver"] = int(any(f.impl != "resolver" for f in case.schema.t(case.schema.query).fields.values()))
     for k, v in plan.abstract_levels.items():
         r["probes"]["abstract_level_" + k] = v
     return strip_private(r)
